@@ -96,9 +96,9 @@ func famInterleave(t *lc) {
 		t.c.Skip("object does not serialize to a buffer.Writer on its own (reported by entrypoints)")
 		return
 	}
-	lim := int64(400)
+	lim := int64(800)
 	if t.c.Tier == "thorough" {
-		lim = 6000
+		lim = 50000
 	}
 	if !binomialAtMost(m+n, n, lim) {
 		t.c.Skip("more interleavings than the tier enumerates")
